@@ -176,14 +176,19 @@ class XsdElement(XsdComponent, ParticleMixin,
                     self._built = False
 
     def _parse(self) -> None:
-        if self._built is not None and isinstance(self.parent, MutableSequence):
+        if not isinstance(self.parent, MutableSequence):
+            self.min_occurs = self.max_occurs = 1
+            self._parse_particle(self.elem)
+        elif self._built is not None:
+            # Local element: the rest is parsed at build, but the occurrences can be
+            # needed before (e.g. the emptiable check on the content of a base type).
+            self.min_occurs = self.max_occurs = 1
+            self._parse_particle(self.elem)
             return
 
-        self.min_occurs = self.max_occurs = 1
         self.selected_by = set()
         self.xsi_types = set()
 
-        self._parse_particle(self.elem)
         self._parse_attributes()
 
         if self.ref is None:
@@ -1300,13 +1305,16 @@ class Xsd11Element(XsdElement):
         </element>
     """
     def _parse(self) -> None:
-        if self._built is not None and isinstance(self.parent, MutableSequence):
+        if not isinstance(self.parent, MutableSequence):
+            self.min_occurs = self.max_occurs = 1
+            self._parse_particle(self.elem)
+        elif self._built is not None:
+            self.min_occurs = self.max_occurs = 1
+            self._parse_particle(self.elem)
             return
 
-        self.min_occurs = self.max_occurs = 1
         self.selected_by = set()
         self.xsi_types = set()
-        self._parse_particle(self.elem)
         self._parse_attributes()
 
         if self.ref is None:
